@@ -144,8 +144,17 @@ func VerifC02Recv() {
 	conn := vNewConn(false)
 	junk := vStr("junk", vLen("junklen", 0, vParam("L", 4)))
 	vASCII(junk)
+	if lo := vParam("LONG", 0); lo > 0 {
+		// a line around / beyond the reader's 4096-byte buffer: filler + the symbolic bytes
+		junk = vFiller('j', vLen("long", lo, lo+vParam("LONGSPAN", 0))) + junk
+	}
 	stream := junk + "\n" + "PRIVMSG #c :hi\r\n"
-	cut := vLen("cut", 0, len(junk)+2)
+	var cut int
+	if vParam("LONG", 0) > 0 {
+		cut = []int{0, 1, 4095, 4096, 4097}[vLen("cutsel", 0, 4)] // reads split around the buffer size
+	} else {
+		cut = vLen("cut", 0, len(junk)+2)
+	}
 	var w *vWire
 	if cut == 0 {
 		w = vNewWire(stream)
@@ -188,6 +197,19 @@ var vC02Shapes = []string{
 	":n!u@h JOIN ", ":me!u@h JOIN ", ":n!u@h KICK #c ", ":n!u@h PART ", ":n!u@h TOPIC #c :", ":n!u@h NICK ",
 	":srv 324 me #c ", ":srv 332 me #c :", ":srv 311 me n u h * :", ":srv 671 me ", "AUTHENTICATE ",
 	":n!u@h PRIVMSG me :\001", ":n!u@h PRIVMSG me :\001PING ", ":n!u@h PRIVMSG me :\001VERSION",
+	// with a closing \001 after the symbolic part ("beginning|end"): complete CTCP messages
+	":n!u@h PRIVMSG me :\001|\001", ":n!u@h PRIVMSG me :\001PING |\001", ":n!u@h PRIVMSG me :\001VERSION|\001",
+	":n!u@h PRIVMSG #c :\001ACTION |\001", ":n!u@h NOTICE me :\001PING |\001", ":n!u@h NOTICE me :\001|\001",
+}
+
+// vShapeParts splits "beginning|end" (the end is empty for most shapes).
+func vShapeParts(shape string) (string, string) {
+	for i := 0; i < len(shape); i++ {
+		if shape[i] == '|' {
+			return shape[:i], shape[i+1:]
+		}
+	}
+	return shape, ""
 }
 
 // C02 (b'): the same as VerifC02Handlers but the symbolic bytes come after a
@@ -205,7 +227,32 @@ func VerifC02HandlerShapes() {
 	shape := vC02Shapes[vLen("shape", 0, len(vC02Shapes)-1)]
 	rest := vStr("rest", vLen("restlen", 0, vParam("L", 2)))
 	vASCII(rest)
-	l := ParseLine(shape + rest)
+	if run := vParam("RUN", 0); run > 0 {
+		// a long run of one arbitrary byte value (any of the 256) after the beginning
+		f := vStr("runbyte", 1)
+		// (not CR/LF; not C2/E1/E2/E3, the lead bytes of multi-byte Unicode spaces, which the white-space models refuse)
+		vAssume(f[0] != '\r' && f[0] != '\n' && f[0] != 0xC2 && f[0] != 0xE1 && f[0] != 0xE2 && f[0] != 0xE3)
+		if pre, _ := vShapeParts(shape); true {
+			inVerb := false
+			for i := 0; i < len(pre); i++ {
+				if pre[i] == '\001' {
+					inVerb = true
+				} else if pre[i] == ' ' {
+					inVerb = false
+				}
+			}
+			if inVerb {
+				vAssume(f[0] < 0x80) // the run is part of the CTCP verb, which goes through strings.ToUpper (ASCII-only model)
+			}
+		}
+		b := make([]byte, run)
+		for i := range b {
+			b[i] = f[0]
+		}
+		rest = string(b) + rest
+	}
+	pre, post := vShapeParts(shape)
+	l := ParseLine(pre + rest + post)
 	if l != nil {
 		conn.dispatch(l)
 		vRunPending()
@@ -213,6 +260,13 @@ func VerifC02HandlerShapes() {
 	_ = vDrain(conn)
 	got := 0
 	conn.HandleFunc("PRIVMSG", func(*Conn, *Line) { got++ })
+	// then a well-formed line for every verb with a built-in handler (a handler that was
+	// left half-done by the odd line - a lock still held, say - shows up here as a deadlock)
+	for _, next := range vC02WellFormed {
+		conn.dispatch(ParseLine(next))
+		vRunPending()
+	}
+	_ = vDrain(conn)
 	for _, next := range []string{":srv CAP * LS :a b", ":srv CAP * ACK :a", "PING :tok", ":n!u@h PRIVMSG #c :still alive"} {
 		conn.dispatch(ParseLine(next))
 		vRunPending()
@@ -226,4 +280,12 @@ func VerifC02HandlerShapes() {
 	vAssert(got == 1, "later-line-still-dispatched")
 	vAssert(conn.SupportsCapability("a") && conn.HasCapability("a"), "capability-state-still-works")
 	vReach("end")
+}
+
+// vC02WellFormed: one ordinary line per verb that has a built-in handler.
+var vC02WellFormed = []string{
+	":srv 001 me :welcome me!u@h", ":n!u@h JOIN #c", ":srv 353 me = #c :@n +v me", ":srv 332 me #c :topic", ":srv 324 me #c +nt",
+	":srv 352 me #c u h s n H :0 real", ":n!u@h MODE #c +o n", ":me MODE me +i", ":n!u@h TOPIC #c :new", ":n!u@h NICK n2", ":n2!u@h NICK n",
+	":srv 311 me n u h * :real", ":srv 671 me n :secure", ":n!u@h PRIVMSG me :\001VERSION\001", ":n!u@h PRIVMSG me :\001PING 1\001",
+	":n!u@h KICK #c x :bye", ":n!u@h PART #c :bye", ":x!u@h QUIT :gone", ":srv 433 * n3 :in use", "AUTHENTICATE +",
 }
